@@ -53,6 +53,9 @@ class RT(Schema):
     lv: Level = Level.LOW
     li: List[int] = Field(default_factory=list)
     se: Set[int] = Field(default_factory=set)
+    ses: Set[Shade] = Field(default_factory=set)
+    son: Set[Optional[int]] = Field(default_factory=set)
+    sd: Set[date] = Field(default_factory=set)
     tu: Tuple[int, str] = (0, '')
     di: Dict[str, int] = Field(default_factory=dict)
     inner: Optional[Inner] = None
@@ -234,29 +237,41 @@ def decimal_(V):
 
 
 # ------------------------------------------------------------------ containers, nested data classes
+# built at import time (outside tracing): real datetime objects, not CrossHair's stand-ins
+WHEN = [None, datetime(2020, 1, 2, 3, 4, 5), datetime(2020, 1, 2, 3, 4, 5, 120000, tzinfo=timezone(timedelta(hours=-8))),
+        datetime(1999, 12, 31, 23, 59, 59, tzinfo=timezone(timedelta(minutes=330))), datetime(2020, 1, 2, 3, 4, 5, tzinfo=timezone.utc),
+        datetime(2021, 6, 7, 8, 9, 10, tzinfo=timezone(timedelta(hours=-3, minutes=-30)))]
+
+
 @ob('containers', marks=['list', 'set', 'tuple', 'dict', 'nested', 'kids', 'datetimes', 'durations'], budget=(60, 200), exhaustive=False,
-    bounds='List[int], Set[int], Tuple[int,str], Dict[str,int] of <= 2 solver ints / picked strings; nested data class with an int '
+    bounds='List[int], Set[int], Set[Enum], Set[Optional[int]], Set[date], Tuple[int,str], Dict[str,int] of <= 2 solver ints / picked strings; nested data class with an int '
            'and an optional datetime (naive or negative / positive offset); list of nested; List[datetime]; Dict[str, timedelta]')
 def containers(V):
-    k = V.pick('kind', ['list', 'set', 'tuple', 'dict', 'nested', 'kids', 'datetimes', 'durations'])
+    k = V.pick('kind', ['list', 'set', 'tuple', 'dict', 'nested', 'kids', 'datetimes', 'durations', 'set-of-enum', 'set-of-optional', 'set-of-date'])
     n = V.pick('n', [0, 1, 2])
     ints = [V.concrete('x%d' % i, V.int('x%d' % i, -5, 5)) for i in range(n)]
-    when = V.pick('when', [None, datetime(2020, 1, 2, 3, 4, 5), datetime(2020, 1, 2, 3, 4, 5, 120000, tzinfo=timezone(timedelta(hours=-8))),
-                           datetime(1999, 12, 31, 23, 59, 59, tzinfo=timezone(timedelta(minutes=330))),
-                           datetime(2020, 1, 2, 3, 4, 5, tzinfo=timezone.utc)])
+    when = V.pick('when', WHEN)
     if k == 'list':
-        roundtrip(V, 'li', ints, 'list')
+        roundtrip(V, 'li', lambda: list(ints), 'list')
     elif k == 'set':
-        roundtrip(V, 'se', set(ints), 'set')
+        roundtrip(V, 'se', lambda: set(ints), 'set')
+    elif k == 'set-of-enum':
+        roundtrip(V, 'ses', lambda: {Shade.LIGHT, Shade.DARK} if n == 2 else {Shade.DARK} if n else set(), 'set')
+    elif k == 'set-of-optional':
+        roundtrip(V, 'son', lambda: set(ints) | ({None} if n else set()), 'set')
+    elif k == 'set-of-date':
+        roundtrip(V, 'sd', lambda: {date(2020, 1, 1 + abs(v)) for v in ints}, 'set')
     elif k == 'tuple':
-        roundtrip(V, 'tu', (ints[0] if ints else 0, V.pick('ts', ['', 'a', '1', 'é"'])), 'tuple')
+        ts = V.pick('ts', ['', 'a', '1', 'é"'])
+        roundtrip(V, 'tu', lambda: (ints[0] if ints else 0, ts), 'tuple')
     elif k == 'dict':
-        roundtrip(V, 'di', {V.pick('k%d' % i, ['a', 'b', '', '1', 'é']): v for i, v in enumerate(ints)}, 'dict')
+        ks = [V.pick('k%d' % i, ['a', 'b', '', '1', 'é']) for i in range(len(ints))]
+        roundtrip(V, 'di', lambda: dict(zip(ks, ints)), 'dict')
     elif k == 'nested':
         roundtrip(V, 'inner', lambda: Inner(x=ints[0] if ints else 0, when=when), 'nested')
     elif k == 'kids':
         roundtrip(V, 'kids', lambda: [Inner(x=v, when=when) for v in ints], 'kids')
     elif k == 'datetimes':
-        roundtrip(V, 'dts', [when] * n if when else [], 'datetimes')
+        roundtrip(V, 'dts', lambda: [when] * n if when else [], 'datetimes')
     else:
         roundtrip(V, 'tdm', lambda: {('k%d' % i): timedelta(days=v, microseconds=v * 1000) for i, v in enumerate(ints)}, 'durations')
